@@ -7,6 +7,8 @@ PROPS = {
     "C05": [J("^TestC05NonceStore$", 1500, 10000, shards=8), J("^TestC05Replay$", 600, 5000, shards=6)],
     "C06": [J("^TestC06RefusedChangesNothing$", 1500, 12000, shards=8)],
     "C07": [J("^TestC07Withdraw$", 1200, 8000, shards=8)],
+    "C08": [J("^TestC08PeerRequests$", 1500, 10000, shards=8)],
+    "C09": [J("^TestC09HostRegistry$", 1200, 8000, shards=8)],
     "C12": [J("^TestC12Lockstep$", 2500, 12000, shards=8), J("^TestC12LockstepOnDisk$", 1, 1200, shards=6, tier="thorough")],
     "C19": [J("^TestC19", 3000, 40000, shards=8)],
 }
